@@ -410,6 +410,9 @@ func (ex *Exec) loopModifies(fr *Frame, spec *LoopSpec) []*Clause {
 		if _, off := ex.contract.Options["loophavoc"]; off {
 			return nil
 		}
+		if _, nf := ex.contract.Options["noframe"]; nf {
+			return nil // the declared modifies set is not claimed to be exact
+		}
 		return ex.contract.Modifies
 	}
 	return nil
